@@ -41,10 +41,11 @@ def run(ctx):
     rep.floor('sort_fn call sites', len(calls), 2)
     for c in calls:
         under_none = None
-        for test, branch in flow.guards_of(c, fn):
+        for test0, branch in flow.guards_of(c, fn):
+            test, neg = A.strip_not(test0)
             if isinstance(test, ast.Compare) and A.is_name(test.left, 'key_fn') and A.is_const(test.comparators[0], None):
                 is_none = isinstance(test.ops[0], ast.Is)
-                under_none = (branch == is_none)
+                under_none = ((branch != neg) == is_none)
         bname = 'key_fn-None branch' if under_none else ('key_fn branch' if under_none is False else 'unconditional')
         rv = [kw for kw in c.keywords if kw.arg == 'reverse']
         ok = bool(rv) and A.is_name(rv[0].value, 'reverse')
